@@ -56,6 +56,15 @@ def quiet_logging(ex, st, callee, args, dty):
     return NotImplemented
 
 
+def silence_logging(ex, st, callee, args, dty):
+    """for analyses that are not about the exit status: every `log!` level test is false (logging has no effect on the result),
+    which removes three paths per log site"""
+    c = canon(callee)
+    if re.fullmatch(r"<log::Level as PartialOrd<(log::)?LevelFilter>>::le", c):
+        return Sym(z3.BoolVal(False), "bool")
+    return NotImplemented
+
+
 def atomic_hook(cells, fresh_loads=False):
     """model Atomic<T> statics as store cells. `cells` maps the static's type string (e.g. 'Atomic<i32>') to a name.
     fresh_loads: every read returns a fresh symbol (recorded in the event) - the value is fixed later by an interleaving
